@@ -267,7 +267,7 @@ Proof. vm_compute. reflexivity. Qed.
     `.`, the names a trait impl must define (`fn eq`, `type Output`), associated-type bindings (`Output = ..`), and the
     generic parameter `T` that the nested function `__assert_eq` declares for itself are the only other places. *)
 Definition keywords : list string :=
-  ["impl"; "for"; "where"; "fn"; "match"; "let"; "mut"; "return"; "type"; "const"; "as"; "self"; "Self"; "true"; "false"; "_"; "dyn";
+  ["impl"; "for"; "where"; "fn"; "trait"; "match"; "let"; "mut"; "return"; "type"; "const"; "as"; "self"; "Self"; "true"; "false"; "_"; "dyn";
    "automatically_derived"; "allow"; "clippy"; "double_parens"; "unused_parens"].
 Definition scoped (s : string) : bool := str_mem s allowed && negb (str_mem s keywords).
 Definition is_p (p : string) (t : option tok) : bool :=
